@@ -141,3 +141,69 @@ Definition gmfx_mean (niter : nat) (x var : list Q) : Q := fst (gmfx_em niter fa
 (* the mean under H0 as _fff_onesample_LR_gmfx obtains it: _fff_onesample_gmfx_EM(&base, &v0, ..., 1) *)
 Definition student_mfx_null_mean (niter : nat) (base : Q) (x var : list Q) : Q := fst (gmfx_em niter true base x var).
 Definition student_mfx_null_var (niter : nat) (base : Q) (x var : list Q) : Q := snd (gmfx_em niter true base x var).
+
+(* -------------------------------------------------------------------------
+   lib/fff/fff_glm_twolevel.c: fff_glm_twolevel_EM_init / _EM_run (one observation vector)
+
+     init: b = 0; s2 = +inf
+     run, per iteration:
+       z = X b
+       w2 = 1/ENSURE_POSITIVE(s2)
+       for i: w1 = 1/ENSURE_POSITIVE(vy_i); vz_i = 1/(w1+w2); z_i = vz_i (w1 y_i + w2 z_i)
+       b = PpiX z
+       Qz = X b - z
+       s2 = (fff_vector_ssd(Qz, &m = 0, fixed_offset = 1) + sum(vz)) / n     (sum of squares about 0)
+
+   s2 : option Q, None = +infinity (1/inf = 0).  FFF_ENSURE_POSITIVE(a) = a > 1e-50 ? a : 1e-50.
+   PpiX (projected pseudo-inverse, computed by the caller) is an argument. *)
+Definition TINY : Q := Qmake 1 (10 ^ 50).
+Definition ens_pos (a : Q) : Q := if Qlt_le_dec TINY a then a else TINY.
+
+Record glm2_state := mk_glm2 { g_b : list Q; g_s2 : option Q }.
+
+Definition glm2_init (p : nat) : glm2_state := mk_glm2 (repeat 0 p) None.
+
+Definition glm2_w2 (s2 : option Q) : Q := match s2 with None => 0 | Some v => 1 / ens_pos v end.
+Definition glm2_vz (w2 vyi : Q) : Q := 1 / (1 / ens_pos vyi + w2).
+Definition glm2_z (w2 yi vyi fi : Q) : Q := glm2_vz w2 vyi * ((1 / ens_pos vyi) * yi + w2 * fi).
+
+Definition glm2_step (P X : list (list Q)) (y vy : list Q) (st : glm2_state) : glm2_state :=
+  let f := mv X (g_b st) in
+  let w2 := glm2_w2 (g_s2 st) in
+  let vz := map (fun v => Qred (glm2_vz w2 v)) vy in
+  let z := map2 (fun yi vf => Qred (glm2_z w2 yi (fst vf) (snd vf))) y (combine vy f) in
+  let b := mv P z in
+  let Qz := map2 (fun a c => a - c) (mv X b) z in
+  mk_glm2 b (Some (Qred ((ssd_fixed Qz 0 + qsum vz) / qlen y))).
+
+Fixpoint glm2_iter (n : nat) (P X : list (list Q)) (y vy : list Q) (st : glm2_state) : glm2_state :=
+  match n with O => st | S k => glm2_iter k P X y vy (glm2_step P X y vy st) end.
+
+Definition glm2_run (P X : list (list Q)) (niter : nat) (y vy : list Q) : glm2_state :=
+  glm2_iter niter P X y vy (glm2_init (length P)).
+Definition glm2_s2 (st : glm2_state) : Q := match g_s2 st with Some v => v | None => -(1) end.
+
+(* -------------------------------------------------------------------------
+   _fff_onesample_laplace (fff_onesample_stat.c:235-260); sqrt and log abstract
+
+     med = median(x); s = SAD(x, med)/n; s0 = SAD(x, base)/n; s0 = FFF_MAX(s0, s);
+     sign = SIGN(med - base); if (sign == 0) return 0;
+     t = sqrt(2 n log(s0/s)); finite ? sign t : sign inf
+
+   fff_vector_median: middle element (odd n) / mean of the two middle elements (even n). *)
+Fixpoint ins_le (v : Q) (l : list Q) : list Q :=
+  match l with [] => [v] | w :: r => if Qlt_le_dec w v then w :: ins_le v r else v :: l end.
+Definition sort_le (l : list Q) : list Q := fold_right ins_le [] l.
+Definition lib_median (x : list Q) : Q :=
+  let s := sort_le x in let n := length x in
+  if Nat.odd n then nth (n / 2) s 0 else (1 # 2) * (nth (n / 2 - 1) s 0 + nth (n / 2) s 0).
+Definition sad (x : list Q) (m : Q) : Q := qsum (map (fun v => qabs' (v - m)) x).
+Definition qmax' (a b : Q) : Q := if Qlt_le_dec b a then a else b.      (* FFF_MAX(a,b) = a > b ? a : b *)
+Definition laplace_ratio (x : list Q) (base : Q) : Q :=
+  let s := sad x (lib_median x) / qlen x in qmax' (sad x base / qlen x) s / s.
+Definition os_laplace (sqrtq lnq : Q -> Q) (x : list Q) (base : Q) : xval :=
+  let med := lib_median x in
+  let s := sad x med / qlen x in
+  if Qeq_bool (qsign (med - base)) 0 then Fin 0
+  else if Qeq_bool s 0 then (if Qlt_le_dec 0 (med - base) then PosInf else NegInf)   (* log(s0/0) = inf *)
+  else Fin (qsign (med - base) * sqrtq (2 * qlen x * lnq (laplace_ratio x base))).
